@@ -72,7 +72,21 @@ def run_window(flavour, fmt, counts, workdir, reconnecting=False):
     for p in (path, path + ".bak"):
         if os.path.exists(p):
             os.remove(p)
-    gw, conn = make(flavour, path)
+    # every third window names the file the way the library's default does: a bare name in the working directory
+    bare = sum(counts) % 3 == 2 and tick != 2
+    cwd = os.getcwd()
+    if bare:
+        os.chdir(store)
+    try:
+        return _run_window(flavour, fmt, counts, store, path, os.path.basename(path) if bare else path, reconnecting)
+    finally:
+        os.chdir(cwd)
+
+
+def _run_window(flavour, fmt, counts, store, path, named, reconnecting):
+    import asyncio
+    tick, p0, p1, p2, p3, p4, p5 = counts
+    gw, conn = make(flavour, named)
     order = []
     swap_failed = [False]
     during = [0]
